@@ -70,6 +70,9 @@ def enumerate_impl(parsed, targets, max_paths):
                     stack.append(script + [k])
             continue
         npaths += 1
+        if rng.native_used:
+            # the generator drew from a primitive the scripted stream cannot steer: the choice protocol is not observable
+            return None, npaths, False, False, [("not_observable", sorted(set(rng.native_used)), script)]
         if rng.bad_p:
             probs.append(("probability_vector", f"rng.choice was handed p={rng.bad_p[0]} (script {script})", script))
         elif gres.status == "raise":
@@ -133,6 +136,10 @@ def one_instance(acc, m, fr, max_paths):
         acc.count("parse_problem_dropped")
         return
     impl, npaths, complete, interesting, probs = enumerate_impl(parsed, targets, max_paths)
+    if impl is None:
+        acc.case(None, labels=["tierA:choice_protocol_not_observable"])
+        acc.count("tier_a_not_observable(Tier C stands in)")
+        return
     case = {"text": text, "ast": m.to_json(), "fr": [list(x) for x in fr], "targets": targets}
     sig = {}
     acc.case((text, tuple(targets)) if interesting else None,
@@ -258,6 +265,112 @@ def tier_b(acc, m, seed, fr):
                 return
 
 
+# ------------------------------------------------------------------------------------------------ Tier C
+UNITS_C = [("CC", 24.022), ("CO", 28.01), ("C(F)C", 43.02)]
+ENDS_C = ["Cl", "Br"]
+
+
+@st.composite
+def freq_case(draw):
+    ws = draw(st.lists(st.sampled_from([1.0, 2.0, 3.0, 5.0, 8.0, 0.5]), min_size=3, max_size=3, unique=True))
+    es = draw(st.lists(st.sampled_from([1.0, 2.0, 4.0, 7.0]), min_size=2, max_size=2, unique=True))
+    lists = None
+    if draw(st.booleans()):
+        lists = [[float(draw(st.sampled_from([0, 1, 2, 5]))) for _ in range(3)] for _ in range(3)]
+        for row in lists:
+            if sum(row) == 0:
+                row[draw(st.integers(0, 2))] = 1.0
+    return ws, es, lists, draw(st.integers(0, 2**31 - 1))
+
+
+def tier_c(acc, ws, es, lists, seed, n):
+    """long-run frequencies of observable decisions of a mid-size instance: the repeat unit at positions 1-3 of the chain and
+    the capping end group, against the law written in the notation (exact binomial, alpha 1e-10, re-confirmed)"""
+    import gbigsmiles
+    from .. import stats as gst
+
+    parts = []
+    for j, ((u, _), w) in enumerate(zip(UNITS_C, ws)):
+        lst = ""
+        if lists is not None:
+            row = lists[j]
+            lst = "|" + " ".join(repr(x) for x in (row[0], 0.0, row[1], 0.0, row[2], 0.0, 0.0, 0.0)) + "|"
+        parts.append(f"[<|{w!r}|]{u}[>{lst}]")
+    T = 3.2 * max(mu for _, mu in UNITS_C)
+    text = "N{[>] " + ", ".join(parts) + " ; " + ", ".join(f"[<|{e!r}|]{g}" for e, g in zip(es, ENDS_C)) + " []}|gauss(" + repr(T) + ", 0)|"
+    case = {"text": text, "tier": "C", "ws": ws, "es": es, "lists": lists, "seed": seed}
+    status, obj = probe.guarded(gbigsmiles.Molecule, text)
+    if status != "ok":
+        acc.count("tier_c_parse_dropped")
+        return
+    res = list(obj.residues)
+    if len(res) != 6:
+        acc.count("tier_c_residues_dropped")
+        return
+    idx = {id(r): k for k, r in enumerate(res)}
+    p1 = [w / sum(ws) for w in ws]
+    if lists is None:
+        ps = [p1, p1, p1]
+    else:
+        M = [[x / sum(row) for x in row] for row in lists]
+        p2 = [sum(p1[i] * M[i][j] for i in range(3)) for j in range(3)]
+        p3 = [sum(p2[i] * M[i][j] for i in range(3)) for j in range(3)]
+        ps = [p1, p2, p3]
+    pe = [e / sum(es) for e in es]
+
+    def sample(seed_, n_):
+        cnt = [[0, 0, 0] for _ in range(3)]
+        ce = [0, 0]
+        ok = 0
+        rng = probe.CountingRNG(seed_)
+        with probe.tag_residues(idx):
+            for _ in range(n_):
+                st_, mg = probe.guarded(lambda: obj.generate(rng=rng), seconds=60)
+                if st_ != "ok":
+                    continue
+                tags = [mg.graph.nodes[k].get("gbsv_tok", -1) for k in sorted(mg.graph.nodes())]
+                if len(tags) < 6 or tags[0] != 0 or any(t not in (1, 2, 3) for t in tags[1:4]) or tags[-1] not in (4, 5):
+                    continue
+                ok += 1
+                for pos in range(3):
+                    cnt[pos][tags[1 + pos] - 1] += 1
+                ce[tags[-1] - 4] += 1
+        return cnt, ce, ok
+
+    def rejected(cnt, ce, ok):
+        out = []
+        alpha = 1e-10 / 11.0
+        for pos in range(3):
+            for j in range(3):
+                if gst.binom_tail(cnt[pos][j], ok, ps[pos][j]) < alpha:
+                    out.append((f"repeat unit {UNITS_C[j][0]} at chain position {pos + 1}", cnt[pos][j], ps[pos][j]))
+        for j in range(2):
+            if gst.binom_tail(ce[j], ok, pe[j]) < alpha:
+                out.append((f"end group {ENDS_C[j]} at the capped end", ce[j], pe[j]))
+        return out
+
+    cnt, ce, ok = sample(seed, n)
+    acc.case((text, "C") if ok >= n // 2 else None, labels=["tierC", f"tierC_lists:{lists is not None}"])
+    acc.count("tier_c_generations", ok)
+    if ok < n // 2:
+        acc.count("tier_c_not_observable")  # creation order / tags not as expected: no verdict
+        return
+    bad = rejected(cnt, ce, ok)
+    if bad:
+        cnt2, ce2, ok2 = sample(seed + 7919, 2 * n)
+        bad2 = rejected(cnt2, ce2, ok2) if ok2 >= n else []
+        again = [b for b in bad if any(b[0] == c[0] for c in bad2)]
+        if again:
+            what, k, p = again[0]
+            acc.violation("frequency", f"{text!r}: {what}: {k} of {ok} generations, the notation gives probability {p:.4f} (confirmed with a second seed and "
+                          f"{ok2} generations)", case, {"lists": lists is not None}, size=len(text))
+        else:
+            acc.count("tier_c_rejection_not_confirmed")
+    if len(acc.samples) < 14:
+        acc.sample({"tier": "C", "molecule": text, "generations": ok, "unit_at_position_1": cnt[0], "expected": [round(x * ok, 1) for x in ps[0]],
+                    "end_groups": ce, "expected_end_groups": [round(x * ok, 1) for x in pe]})
+
+
 def run_shard(cfg):
     import time
     acc = Acc()
@@ -286,11 +399,17 @@ def run_shard(cfg):
             return
         tier_b(acc, x[0], x[1], x[2])
     drive(big_case(), g, max(4, n // 2), cfg["seed"] + 11)
+
+    # Tier C: long-run frequencies (backstop; stands in when the choice protocol is not observable)
+    nc = 300 if cfg["tier"] == "quick" else 3000
+    drive(freq_case(), lambda x: tier_c(acc, x[0], x[1], x[2], x[3], nc), 3 if cfg["tier"] == "quick" else 8, cfg["seed"] + 23)
     return acc
 
 
 def shrink_candidates(case):
     """smaller molecules of the same kind (fewer units / end groups, lists and weights removed), still inside the domain"""
+    if case.get("tier") == "C":
+        return
     from ..shrink import mol_candidates
     for ast, text in mol_candidates(case["ast"]):
         yield {**case, "ast": ast, "text": text}
@@ -299,6 +418,9 @@ def shrink_candidates(case):
 def replay(case, rec):
     acc = Acc()
     m = Mol.from_json(case["ast"])
+    if case.get("tier") == "C":
+        tier_c(acc, case["ws"], case["es"], case["lists"], case["seed"], 600)
+        return acc
     if case.get("tier") == "B":
         tier_b(acc, m, case["seed"], [tuple(x) for x in case["fr"]])
         return acc
